@@ -522,6 +522,9 @@ def sort_scenarios(shapes, L, seed, nrandom=40, max_random_len=200):
             # all permutations of 0..n as index lists (n <= L), through both apply_index entry points
             if n <= 6:
                 perms = list(itertools.permutations(range(n)))
+                reuse_perms = perms if len(perms) <= 24 else rng.sample(perms, 24)
+                for pm in reuse_perms:
+                    out.append(Scenario(sh, [setup(n), f"apply_index_reuse r0 {tl(list(pm))}", "len r0"], "apply_index-reuse"))
                 if len(perms) > 130: perms = rng.sample(perms, 130) + [tuple(range(n)), tuple(reversed(range(n)))]
                 for via in ("vec", "slicemut"):
                     lines = [setup(n)]
